@@ -5,6 +5,9 @@ import (
 	"encoding/json"
 	"fmt"
 	"os"
+	"sort"
+	"sync"
+	"sync/atomic"
 
 	"github.com/internetarchive/Zeno/pkg/models"
 	"github.com/internetarchive/Zeno/verifharness/vh"
@@ -149,5 +152,94 @@ func c11(args []string) error {
 			tr.Emit(ev)
 		}
 	}
-	return sc.Err()
+	if err := sc.Err(); err != nil {
+		return err
+	}
+	// ---- concurrent use of one node: the mutators lock the children list, so removals, additions and
+	// readers running at once must leave exactly the children that were not removed plus the added ones
+	r := vh.Rand(1100)
+	for round := 0; round < 150; round++ {
+		hn++
+		idc++
+		seed := models.NewItem(fmt.Sprintf("id-%d", idc), c11url("a"), "")
+		var kids []*models.Item
+		nk := 8 + r.Intn(24)
+		for i := 0; i < nk; i++ {
+			idc++
+			c := models.NewItem(fmt.Sprintf("id-%d", idc), c11url(fmt.Sprintf("k%d", i)), "")
+			if err := seed.AddChild(c, models.ItemGotChildren); err != nil {
+				return err
+			}
+			kids = append(kids, c)
+		}
+		before := vh.Project(seed, vh.UrlName)
+		expect := map[string]bool{}
+		var remove [][]*models.Item
+		g := 2 + r.Intn(5)
+		remove = make([][]*models.Item, g)
+		for i, c := range kids {
+			if r.Intn(3) > 0 {
+				remove[i%g] = append(remove[i%g], c)
+			} else {
+				expect[vh.UrlName(c.GetURL())] = true
+			}
+		}
+		var adds []*models.Item
+		for i := 0; i < r.Intn(4); i++ {
+			idc++
+			c := models.NewItem(fmt.Sprintf("id-%d", idc), c11url(fmt.Sprintf("n%d", i)), "")
+			adds = append(adds, c)
+			expect[vh.UrlName(c.GetURL())] = true
+		}
+		var wg sync.WaitGroup
+		var panics atomic.Int64
+		start := make(chan struct{})
+		for i := 0; i < g; i++ {
+			wg.Add(1)
+			go func(mine []*models.Item) {
+				defer wg.Done()
+				defer func() {
+					if recover() != nil {
+						panics.Add(1)
+					}
+				}()
+				<-start
+				for _, c := range mine {
+					seed.RemoveChild(c)
+				}
+			}(remove[i])
+		}
+		wg.Add(2)
+		go func() {
+			defer wg.Done()
+			defer func() {
+				if recover() != nil {
+					panics.Add(1)
+				}
+			}()
+			<-start
+			for _, c := range adds {
+				seed.AddChild(c, models.ItemGotChildren)
+			}
+		}()
+		go func() {
+			defer wg.Done()
+			defer func() { recover() }()
+			<-start
+			for i := 0; i < 50; i++ {
+				_ = len(seed.GetChildren())
+			}
+		}()
+		close(start)
+		wg.Wait()
+		after := vh.Project(seed, vh.UrlName)
+		exp := []string{}
+		for u := range expect {
+			exp = append(exp, u)
+		}
+		sort.Strings(exp)
+		tr.Emit(map[string]any{"ev": "op", "h": hn, "k": 1, "op": "conc", "before": before.Nodes, "after": after.Nodes, "ids": after.IDs, "links": after.Links, "cc": after.CC,
+			"expect": exp, "panics": panics.Load(), "goroutines": g})
+	}
+	return nil
 }
